@@ -37,3 +37,16 @@ Definition gha_admits (s a : tag) : bool :=
   | [x; y] => nums_eqb (firstn 2 (pad3 (t_nums a))) [x; y]
   | l => nums_eqb (pad3 (t_nums a)) l && beq (t_pre a) (t_pre s)
   end.
+
+(* a version-like ref, textually: an optional v (then an optional V), then - up to the first '-' - one to three
+   dot-separated components.  A ref that is not of this form (a branch name is judged by its components too: 'main'
+   has one; 'release/v1.2.3.4' has four) with more than three components is not a version-like tag. *)
+Definition strip_vV (v : bytes) : bytes :=
+  let v1 := match strip_prefix [118] v with Some r => r | None => v end in
+  match strip_prefix [86] v1 with Some r => r | None => v1 end.
+Definition ref_like (s : bytes) : bool :=
+  match strip_vV s with
+  | [] => false
+  | v => let base := match split_once 45 v with Some (b, _) => b | None => v end in
+         match split_char 46 base with [_] | [_; _] | [_; _; _] => true | _ => false end
+  end.
